@@ -152,13 +152,15 @@ def jobs(prop, tier):
         return [dict(SE("sync_probe16_edge", 2), **f), dict(SE("sync_probe16sc_edge", 2), **f)]
     if prop == "C17":
         f = dict(dump_module="OrdaSyncProbeDump.tla")
+        ff = dict(dump_module="OrdaSyncFaultProbeDump.tla")     # resets after a handler run cut in half by a storage fault
         if q:
-            return [dict(SE("sync_probe17_edge", 2, rate=0.3), **f)]
-        return [dict(SE("sync_probe17_edge", 2), **f)]
+            return [dict(SE("sync_probe17_edge", 2, rate=0.3), **f), dict(SE("sync_faultprobe17_edge", 2, rate=0.1), **ff),
+                    dict(SE("sync_faultprobe17sc_edge", 2, rate=0.1), **ff)]
+        return [dict(SE("sync_probe17_edge", 2), **f), dict(SE("sync_faultprobe17_edge", 2), **ff), dict(SE("sync_faultprobe17sc_edge", 2), **ff)]
     if prop == "C08":
         f = dict(dump_module="OrdaSyncFaultDump.tla")
         if q:
-            return [dict(SE("sync_db_edge", 2, rate=0.08), **f), dict(SE("sync_db_sc_edge", 2, rate=0.03), **f),
+            return [dict(SE("sync_db_edge", 2, rate=0.03), **f), dict(SE("sync_db_sc_edge", 2, rate=0.01), **f),
                     dict(SS("sync_db_sim", 3, 10, 60), **f)]
         return [dict(SM("sync_db2"), module="OrdaSyncFault.tla"), dict(SE("sync_db_edge", 2), **f),
                 dict(SE("sync_db_sc_edge", 2), **f), dict(SS("sync_db_sim", 3, 800, 80), **f)]
